@@ -84,7 +84,9 @@ pub fn run(ctx: &Ctx) -> (CheckMeta, Acc) {
             pure_case(acc, &mut r);
         }
         if ctx.replay.as_ref().map(|r| r.history >= 1_000_000_000).unwrap_or(true) {
-            crate::mon::inc::run_inc_histories(ctx, sh, acc, n, steps, "C13");
+            if !ctx.pure_only {
+                crate::mon::inc::run_inc_histories(ctx, sh, acc, n, steps, "C13");
+            }
         }
     });
     let meta = CheckMeta {
